@@ -254,6 +254,13 @@ public:
    */
   AssociationGraphImplObserver<N, E, GraphImpl>& operator=(bpp::AssociationGraphImplObserver<N, E, GraphImpl> const& graphObserver)
   {
+    if (this == &graphObserver)
+      return *this;
+    // forget the previous graph and associations
+    getGraph()->unregisterObserver(this);
+    graphidToN_.clear(); graphidToE_.clear(); NToGraphid_.clear(); EToGraphid_.clear();
+    indexToN_.clear(); indexToE_.clear(); NToIndex_.clear(); EToIndex_.clear();
+
     this->graphidToN_.resize(graphObserver.graphidToN_.size());
     this->graphidToE_.resize(graphObserver.graphidToE_.size());
     this->indexToN_.resize(graphObserver.indexToN_.size());
